@@ -94,6 +94,23 @@ PROPS = {
                      "else 5s (rel. tol. 1e-9), no timeout answer before the virtual deadline and one in the step that reaches it, late replies have no "
                      "effect, sanitizers silent. Non-trivial = at least one armed duration was compared and the scenario has a timeout or a race step; "
                      "distinct = scenario hash."),
+    "C17": dict(module=True, engine="module-pbt", driver="c17", variants=["default"], level="exploration", kinds=["asan"],
+                repo_sources=["alloc.c"], shims=["c17_support.c"], exhaustive=True,
+                multi=[("c17_table.c", ["-DT_TYPE=%d" % t, "-DT_ORDER=%d" % o], "tbl_%d_%d" % (t, o)) for t in range(3) for o in range(2, 14)],
+                quick=dict(plan=[dict(bin="asan", mode="exhaustive", cases=i, size=6) for i in range(9)] + [dict(bin="asan", mode="random", cases=2500, size=150) for _ in range(7)]),
+                thorough=dict(plan=[dict(bin="asan", mode="exhaustive", cases=i, size=7) for i in range(9)] + [dict(bin="asan", mode="random", cases=150000, size=300) for _ in range(7)], budget_s=3000),
+                rule="the real hashtable.h macros instantiated for orders 2..13 x {string,uint32,uint64} (36 tables). (1) exhaustive: for orders 2-4 and all three key "
+                     "types, every sequence of length <=6 (quick) / <=7 (thorough) over an alphabet of 16 operations (put new/overwrite with and without prev_value, "
+                     "remove, routing-style sweep) on 5 keys sharing or neighbouring a home bucket at the end and at the start of the table, deduplicated by table image; "
+                     "(2) rapidcheck: sequences of up to hundreds of put/get/remove/sweep/invalid-key operations on 3-120 clustered keys (homes at the table end so "
+                     "probing wraps, >32 keys per neighbourhood for orders >=7 so displacement and refusal occur), keys passed through two distinct pointers of equal "
+                     "content for string tables. Oracle after every operation: return codes, values and prev_value equal a std::map; every key of the universe is "
+                     "looked up; when put reports full an independent breadth-first reachability computation over occupancy and hop bitmaps must find no free slot "
+                     "that can be brought within hop range. Non-trivial = the sequence caused a displacement, a wrap-around probe or a refusal (random), or is a distinct "
+                     "table image reached (exhaustive); exhaustive=true refers to sub-domain (1).",
+                technique="bounded exhaustive enumeration (small orders) + rapidcheck model-based testing against std::map with a reachability reference",
+                level_text="Every operation sequence up to the stated length on the smallest tables is enumerated; larger orders, displacement and refusal are sampled with model-based random sequences.",
+                level_note="Trusts std::map and the reachability reference in modules/c17.cpp; instantiates the macros exactly as table.c and router.c do (value_entries=1)."),
     "C18": dict(module=True, engine="module-pbt", driver="c18", variants=["default"], level="exploration", kinds=["asan", "fast"],
                 repo_sources=["utf8_checker.c"], shims=["c18_shim.c"], exhaustive=True,
                 quick=dict(plan=[dict(bin="fast", mode="words32", cases=0, size=0), dict(bin="fast", mode="words64", cases=300000, size=0)] +
@@ -170,6 +187,10 @@ def build_module(prop, variant):
             _run(["clang", "-std=gnu99", "-D_GNU_SOURCE", "-DNO_GZIP", "-g", "-O2", "-Wno-everything"] + san + spec.get("cflags", []) + inc + ["-c", f, "-o", o])
             for a, b in spec.get("redefine", []):
                 _run(["objcopy", "--redefine-sym", "%s=%s" % (a, b), o])
+            objs.append(o)
+        for (f, defs, name) in spec.get("multi", []):
+            o = os.path.join(tmp, kind + "_" + name + ".o")
+            _run(["clang", "-std=gnu99", "-D_GNU_SOURCE", "-g", "-O2", "-Wno-everything"] + san + defs + inc + ["-I", os.path.join(VERIF, "modules"), "-c", os.path.join(VERIF, "modules", f), "-o", o])
             objs.append(o)
         drv = drv_obj if kind == "asan" else drv_obj.replace(".o", "_fast.o")
         _run(["clang++"] + san + [drv] + objs + spec.get("libs", ["-lrapidcheck"]) + ["-o", os.path.join(tmp, kind + ".bin")])
